@@ -435,6 +435,39 @@ async def c08_event_filter_value(w):
     return {"reproduced": bool(bad), "observed": out, "values": [repr(v) for v in values], "expected": "runs exactly for the true values"}
 
 
+async def c07_state_active_truth(w):
+    """@state_active with an expression whose value is not a bool: the function runs iff the value is true in a boolean context
+    (int(pyscript.cnt) with '0' rejects, with '2' accepts).  Both subsystems."""
+    from types import SimpleNamespace as NS
+    from custom_components.pyscript.global_ctx import GlobalContext, GlobalContextMgr
+    from custom_components.pyscript.state import State
+    out = {}
+    for sub in ("new", "legacy"):
+        hass = await boot_full(legacy=(sub == "legacy"))
+        table = fake_states(hass)
+        State.notify_var_last.clear()
+        ran = []
+        name = f"file.c07sa_{sub}"
+        g = GlobalContext(name, global_sym_table={"__name__": name, "note": lambda v: ran.append(v)}, manager=GlobalContextMgr)
+        GlobalContextMgr.set(name, g)
+        g.set_auto_start(True)
+        table["pyscript.cnt"] = ("0", {})
+        _, _, exc = await run_source(name, "@event_trigger('c07sa_ev')\n@state_active('int(pyscript.cnt)')\ndef f(i=None, **kw):\n    note(i)\n", global_ctx=g)
+        await settle(40)
+        for i, val in enumerate(["0", "2", "0"]):
+            table["pyscript.cnt"] = (val, {})
+            for cb in list(hass.bus.listeners.get("c07sa_ev", [])):
+                await cb(NS(event_type="c07sa_ev", context=None, data={"i": i}))
+            await settle(40)
+        out[sub] = {"ran_for": list(ran), "expected": [1], "error": repr(exc) if exc else None}
+        g.stop()
+        GlobalContextMgr.delete(name)
+        await settle(40)
+        await shutdown()
+    bad = {k: v for k, v in out.items() if v["ran_for"] != v["expected"]}
+    return {"reproduced": bool(bad), "observed": out, "expected": "runs only for the occurrence during which int(pyscript.cnt) is 2"}
+
+
 async def c12_outgoing(w):
     """service.call / domain.service() with control-keyword look-alikes; data delivered must equal the given kwargs
     minus control keywords of the recognised type."""
